@@ -2045,3 +2045,97 @@ def emit_grad_termwise(M, L):
         out.append("Proof.\n  " + "\n  ".join(pf) + "\nQed.")
     out.append("Print Assumptions %s_stress_is_energy_gradient_5." % n)
     return "\n".join(out) + "\n", terms
+
+
+def emit_tangent_termwise(M, L, rows=(0, 1, 2, 3, 4, 5), cols=(0, 1, 2, 3, 4, 5)):
+    """Gen_HyperTanT_<law>_<rows>.v: assembled tangent entry [j][m] = derivative of the assembled stress component j along the
+       m-th Kelvin-Mandel coordinate, proved piecewise: stress_j = sum_k 2 S_k(I(e)) dIkdC[j](e), one is_derive per k, then
+       is_derive is additive and the sum is the code's tangent by `ring` + <law>_first_term_Ik.  A coefficient S_k that depends
+       on its own invariant only (fibre terms) is handled by the one-variable chain rule (is_derive_comp) on the already proved
+       <law>_d2WdIkdIk_correct, the others by gsolve2."""
+    n = L["name"]
+    ps = " ".join(L["params"])
+    S = M["state"]
+    T = _inv_trees(M, L)
+    used = [k for k in INV if k in T]
+    recs = {k: state_invariant(S, k, L["invs"].get(k, _default_args(k))) for k in used}
+    dirs = " ".join(CV[6:])
+    I3 = T[3][0]
+    out = [HDR % ("EasyFEA/Models/HyperElastic/_laws.py class %s + _state.py" % n),
+           "From Coq Require Import Reals Lra Psatz List.", "From Coquelicot Require Import Coquelicot.",
+           "From EFModel Require Import C18_tac C18_gradtac.", "From EFP Require Import Gen_HyperLaws Gen_HyperComp Gen_Law_%s." % n, "Open Scope R_scope.", "",
+           "Lemma is_derive_sum2 (f g : R -> R) (x a b : R) : is_derive f x a -> is_derive g x b -> is_derive (fun y => f y + g y) x (a + b).",
+           "Proof. intros. now apply @is_derive_plus. Qed.",
+           "Lemma is_derive_affine (f : R -> R) (x d a b : R) : is_derive f x d -> is_derive (fun y => a * f y * b) x (a * d * b).",
+           "Proof. intro H. evar_last. apply (is_derive_ext (fun y => (a * b) * f y)). { intro t. simpl. ring. } { apply is_derive_scal. exact H. } simpl. ring. Qed.", ""]
+    sig = "(%s : R) (%s : R)" % (ps, " ".join(CV))
+    # S_k depending on its own invariant only, with a constant first-derivative table
+    def single(k):
+        fv = set(v for v in free_vars(law_coef(L, 'dW', k)) if v.startswith("I") and v[1:].isdigit())
+        const_g = all(not (free_vars(t) & set(COMP)) for t in T[k][1])
+        return fv <= {"I%d" % k} and const_g
+    last = None
+    for j in rows:
+        for m in cols:
+            others = [c for i, c in enumerate(COMP) if i != m]
+            sub = lambda var: {COMP[m]: _km_arg(m, var)}
+            def Iarg1(k, var):
+                return "(%s)" % coqR(subst(T[k][0], sub(var))) if k in T else "0"
+            def Iargs(var):
+                return " ".join(Iarg1(k, var) for k in INV)
+            def g(k, comp, var):
+                return "(%s)" % coqR(subst(T[k][1][comp], sub(var)))
+            def cargs(var):
+                return " ".join("(%s)" % coqR(_km_arg(m, var)) if i == m else c for i, c in enumerate(COMP))
+            hyp = "0 < %s" % coqR(subst(I3, sub("e0")))
+            vars_ = "%s %s %s e0" % (ps, " ".join(others), dirs)
+            fah = "forall %s, %s ->" % (vars_, hyp)
+            # the code's assembly in terms of the named coefficients T_k = coef(d2IkdC)/4, H_ab = coef(dIadC (x) dIbdC)/4
+            tt = ["4 * %s_T%d %s %s * (%s)" % (n, k, ps, " ".join(CV and [Iarg1(q, "@") for q in INV]), coqR(recs[k]["d2"][j][m])) for k in INV if k in L["d2W1"] and k in T]
+            tdef = []
+            for k in INV:
+                if k in L["d2W1"] and k in T:
+                    tdef.append("4 * %s_T%d %s %s * (%s)" % (n, k, ps, " ".join("(%s)" % coqR(T[q][0]) if q in T else "0" for q in INV), coqR(recs[k]["d2"][j][m])))
+            for ((ja, aa), (kb, ab)) in L["d2W2"]:
+                tdef.append("4 * %s_H%d%d %s %s * (%s) * (%s)" % (n, ja, kb, ps, " ".join("(%s)" % coqR(T[q][0]) if q in T else "0" for q in INV),
+                                                             coqR(state_invariant(S, ja, aa)["d1"][j]), coqR(state_invariant(S, kb, ab)["d1"][m])))
+            out.append("Definition %s_tangent%d%d %s : R := %s." % (n, j, m, sig, " + ".join(tdef) if tdef else "0"))
+            for k in used:
+                d2 = "(%s)" % coqR(subst(recs[k]["d2"][j][m], sub("e0")))
+                dsum = " + ".join(["4 * %s_H%d%d %s %s * %s * %s" % (n, k, l, ps, Iargs("e0"), g(l, m, "e0"), g(k, j, "e0")) for l in used]
+                                  + ["4 * %s_S%d %s %s * %s" % (n, k, ps, Iargs("e0"), d2)])
+                out.append("Lemma %s_tan%d%d_piece%d : %s\n  is_derive (fun e => 2 * %s_S%d %s %s * %s) e0 (%s)." % (n, j, m, k, fah, n, k, ps, Iargs("e"), g(k, j, "e"), dsum))
+                if single(k):
+                    xargs = " ".join(("x" if q == k else Iarg1(q, "e0")) for q in INV)
+                    pf = ["intros %s H." % vars_,
+                          "assert (HI : is_derive (fun e => %s) e0 (2 * %s)) by (auto_derive; [ exact I | field ])." % (coqR(subst(T[k][0], sub("e"))), g(k, m, "e0")),
+                          "pose proof (%s_d2WdI%ddI%d_correct %s %s H) as HS." % (n, k, k, ps, Iargs("e0")),
+                          "pose proof (is_derive_comp (fun x => %s_S%d %s %s) (fun e => %s) e0 _ _ HS HI) as HC." % (n, k, ps, xargs, coqR(subst(T[k][0], sub("e")))),
+                          "evar_last. exact (is_derive_affine _ _ _ 2 %s HC)." % g(k, j, "e0"),
+                          "unfold %s. unfold scal, mult; simpl. unfold mult; simpl. ring." % ", ".join("%s_H%d%d" % (n, k, l) for l in used if l != k)]
+                    out.append("Proof.\n  " + "\n  ".join(pf) + "\nQed.")
+                else:
+                    out.append("Proof. intros %s H. unfold %s. gsolve2 H. Qed." % (vars_, ", ".join(["%s_S%d" % (n, k)] + ["%s_H%d%d" % (n, k, l) for l in used])))
+            out.append("Theorem %s_tangent_is_stress_derivative_%d%d : %s\n  is_derive (fun e => %s_stress%d %s %s %s) e0 (%s_tangent%d%d %s %s %s)."
+                       % (n, j, m, fah, n, j, ps, cargs("e"), dirs, n, j, m, ps, cargs("e0"), dirs))
+            body = "2 * %s_S%d %s %s * %s" % (n, used[0], ps, Iargs("e"), g(used[0], j, "e"))
+            nest = "(%s_tan%d%d_piece%d %s H)" % (n, j, m, used[0], vars_)
+            for k in used[1:]:
+                nest = "(is_derive_sum2 (fun e => %s) (fun e => 2 * %s_S%d %s %s * %s) _ _ _ %s (%s_tan%d%d_piece%d %s H))" % (body, n, k, ps, Iargs("e"), g(k, j, "e"), nest, n, j, m, k, vars_)
+                body = "%s + 2 * %s_S%d %s %s * %s" % (body, n, k, ps, Iargs("e"), g(k, j, "e"))
+            pf = ["intros %s H." % vars_,
+                  "apply (is_derive_ext (fun e => %s))." % body,
+                  "{ intro e. unfold %s_stress%d. reflexivity. }" % (n, j),
+                  "evar_last. exact %s." % nest,
+                  "unfold %s_tangent%d%d." % (n, j, m)]
+            for k in used:
+                if k in L["d2W1"]:
+                    pf.append("rewrite (%s_first_term_I%d %s %s H)." % (n, k, ps, Iargs("e0")))
+            absent = ["%s_H%d%d" % (n, a, b) for a in used for b in used if ((a, L["invs"].get(a, _default_args(a))), (b, L["invs"].get(b, _default_args(b)))) not in L["d2W2"]]
+            if absent:
+                pf.append("unfold %s." % ", ".join(absent))
+            pf.append("ring.")
+            out.append("Proof.\n  " + "\n  ".join(pf) + "\nQed.")
+            last = "%s_tangent_is_stress_derivative_%d%d" % (n, j, m)
+    out.append("Print Assumptions %s." % last)
+    return "\n".join(out) + "\n"
